@@ -65,7 +65,12 @@ func runC19(r *vf.Run) {
 		id := fmt.Sprintf("rnd%03d", i)
 		n := []int{lrng.Intn(30), lrng.Intn(1200), lrng.Intn(3001)}[lrng.Intn(3)]
 		hostile := i%4 != 3
-		cases = append(cases, wf{id, func() *gen.CSVFile { return gen.MakeCSV(r.RNG("csv/"+id), n, 6, hostile) }})
+		style, eol := []string{"quoted", "minimal", "minimal", "quoted"}[i%4], []string{"\n", "\n", "\r\n", "\r\n"}[i%4]
+		cases = append(cases, wf{id, func() *gen.CSVFile {
+			c := gen.MakeCSV(r.RNG("csv/"+id), n, 6, hostile)
+			c.RenderStyle(style, eol)
+			return c
+		}})
 	}
 	var ids []string
 	byID := map[string]wf{}
@@ -95,6 +100,7 @@ func runC19(r *vf.Run) {
 			res := runCreate(r, big, out, in)
 			r.Eval(1)
 			r.Cover("modes", mode)
+			r.Cover("csv_styles", csvStyle(csv.Text))
 			r.Distinct(cid + "|absent")
 			w := map[string]any{"mode": mode, "records": len(csv.Records), "header": fmt.Sprintf("%q", csv.Header), "columns": csv.Columns, "first_records": fmt.Sprintf("%q", csv.Records[:min(3, len(csv.Records))])}
 			if res.TimedOut {
@@ -292,4 +298,16 @@ func runC19(r *vf.Run) {
 	r.Floor("both modes", r.Covered("modes") == 2)
 	r.Floor("output absent / valid index / junk", r.Covered("output_states") == 3)
 	r.Floor("every malformed kind", r.Covered("malformed_kinds") == len(malformed))
+}
+
+// csvStyle names the rendering of a generated CSV for the coverage tally.
+func csvStyle(text string) string {
+	st := "quoted"
+	if !strings.HasPrefix(text, `"`) {
+		st = "minimal-quoting"
+	}
+	if strings.Contains(text, "\"\r\n") || strings.HasSuffix(text, "\r\n") {
+		st += "+crlf"
+	}
+	return st
 }
